@@ -219,7 +219,18 @@ pub fn main(args: &Args) -> ! {
     run.set("rule", "fault plan = tracker {udp-mio, udp-uring, http, ws} x fault point (hook H6 probes in every worker kind: socket start / loop / accept / connection task, swarm start / request handler / control handler / cleaning timer, cleaning thread, statistics thread, signal thread; hook H9 in the metrics (prometheus) thread: before serving and on a 100 ms tick while serving) x mode {panic at every point; return at points where returning ends the worker function} x time {first hit, after requests were served} x workers {1, 2}, and the workers at the end of the supervised list (metrics, signals, cleaning, statistics, the last socket / swarm worker to start) with 7 + 7 workers (http, ws) and 12 socket workers (udp); plus, without hooks, a tracker socket and a metrics endpoint that cannot be set up (address not local). Each plan is one child process running run(); non-trivial = the fault point was actually reached (a plan whose point is never reached is exit 2); distinct = distinct plans");
     run.assume("a worker that hangs without finishing is not in the property; a panic inside the metrics thread's detached render task is caught by tokio and does not stop the worker, so it is not a fault plan");
     let ps = plans(args.tier.thorough());
-    let mut results: Vec<Result<(String, i64), (String, String)>> = par_map(&ps, 16, |p| run_plan(p));
+    // plans with few workers side by side; the 14- and 12-worker trackers four at a time (sixteen of them oversubscribe the
+    // machine and every timing then needs its isolated re-run)
+    let light: Vec<usize> = (0..ps.len()).filter(|i| ps[*i].workers < 7).collect();
+    let heavy: Vec<usize> = (0..ps.len()).filter(|i| ps[*i].workers >= 7).collect();
+    let mut results: Vec<Option<Result<(String, i64), (String, String)>>> = (0..ps.len()).map(|_| None).collect();
+    for (i, r) in light.iter().zip(par_map(&light, 16, |i| run_plan(&ps[*i]))) {
+        results[*i] = Some(r);
+    }
+    for (i, r) in heavy.iter().zip(par_map(&heavy, 4, |i| run_plan(&ps[*i]))) {
+        results[*i] = Some(r);
+    }
+    let mut results: Vec<Result<(String, i64), (String, String)>> = results.into_iter().map(|r| r.unwrap()).collect();
     // timing is part of the property: a plan that fails while 16 trackers run side by side is run again on its own,
     // and only a failure that reproduces is reported (or, for an unreached fault point, treated as a machinery failure)
     let mut reruns = 0u64;
